@@ -97,7 +97,9 @@ prop(
         "offer leads to paused/canceled/succeeded/failed (T3b); pausing/canceling are never kept "
         "without something in flight (T3c); no offering status is a resting one (T3f); internally "
         "generated event names are always accepted (T1) and the task table is closed (T0); a "
-        "with-items task does not stay in flight when its last item ended (T4g, T4d). NOT "
+        "with-items task does not stay in flight when its last item ended (T4g, T4d); the "
+        "transitions of every completed task are evaluated under no further condition, so "
+        "a rerun of a canceled or failed workflow finds the successors staged (P15). NOT "
         "decided: stuck states that arise from task-level combinations over histories (e.g. a "
         "ready staged entry that renders zero actions) and rerun continuations."),
     assumptions=[A1, A_SPEC, A_AST],
@@ -150,7 +152,9 @@ prop(
         "whose event completes the workflow is marked terminal under that condition alone, so "
         "a canceled workflow keeps a terminal record to render its output from (P10); the "
         "unreachable-join override (status := failed) is guarded, at every site, by a condition "
-        "that excludes a workflow the table has just canceled (F10). NOT "
+        "that excludes a workflow the table has just canceled (F10); while canceling, reports "
+        "are neither dropped selectively (P14) nor are a completed task's transitions - and "
+        "with them its publishes and its terminal mark - skipped (P15). NOT "
         "decided: 'not turned into failed merely because the cancellation kept joins from "
         "running' (needs the causal reason of an unreachable join)."),
     assumptions=[A1, A_SPEC, A_AST],
@@ -314,7 +318,10 @@ prop(
         "the entry just appended to routes, never one found by searching the existing routes, "
         "so two branches cannot come to share one identity (P9); the result the criteria are "
         "evaluated on is the reported result itself on every path of make_task_result for a "
-        "task without items (V2). NOT decided: the multiset "
+        "task without items (V2); update_task_state drops no report selectively (every path raises, "
+        "ignores every report alike, or reaches the task state machine: P14) and evaluates all "
+        "the outgoing transitions of every task that completes, under no further condition "
+        "(P15 - skipping them loses the successors a rerun continues from). NOT decided: the multiset "
         "equality between executed tasks and what the definition prescribes over all graph "
         "shapes, outcome assignments and completion orders; cycle re-entry."),
     assumptions=[A_ABS, A_AST],
